@@ -105,6 +105,7 @@ class Analysis:
                   "core::ops::range::Range<A>>::next")
     IDENTITY_CALLS = ("<I as core::iter::traits::collect::IntoIterator>::into_iter",)
     REV_NEXT = "<core::iter::adapters::rev::Rev<I> as core::iter::traits::iterator::Iterator>::next"
+    ENUM_NEXT = "<core::iter::adapters::enumerate::Enumerate<I> as core::iter::traits::iterator::Iterator>::next"
     LEN_CALLS = ("core::slice::<impl [T]>::len", "core::str::<impl str>::len", "alloc::vec::Vec::<T, A>::len")
     EMPTY_CALLS = ("core::slice::<impl [T]>::is_empty", "core::str::<impl str>::is_empty",
                    "alloc::vec::Vec::<T, A>::is_empty")
@@ -468,7 +469,8 @@ class Analysis:
             del st.bf[d]
         for k in [k for k, v in st.sym.items() if key_root(v[2]) == l]:
             del st.sym[k]
-        for k in [k for k, v in st.rel.items() if v[0] in ("cast", "inrange") and key_root(v[1]) == l]:
+        for k in [k for k, v in st.rel.items() if (v[0] in ("cast", "inrange") and key_root(v[1]) == l)
+                  or (v[0] in ("iterof", "enumof") and v[1][0] == "len" and key_root(v[1]) == l)]:
             del st.rel[k]
         for k in list(st.le):
             if key_root(k) == l:
@@ -714,6 +716,9 @@ class Analysis:
         """Iterator state of a `for` loop whose next() is modelled: Range<_> and Rev<Range<_>>."""
         if lt.get("n") == "core::ops::range::Range":
             return True
+        if lt.get("n") == "core::iter::adapters::enumerate::Enumerate" and bool(lt.get("a")) and \
+                lt["a"][0].get("n") == "core::slice::iter::Iter":
+            return True
         return lt.get("n") == "core::iter::adapters::rev::Rev" and bool(lt.get("a")) and \
             lt["a"][0].get("n") == "core::ops::range::Range"
 
@@ -839,7 +844,12 @@ class Analysis:
         if rng is None:
             new_paths = {}
             new_sym = {}
+            moved_rel = None
+            if rv["r"] == "use" and rv["a"].get("o") in ("copy", "move") and not rv["a"]["p"] \
+                    and st.rel.get(rv["a"]["l"], (None,))[0] in ("iterof", "enumof") and l not in self.escaped:
+                moved_rel = st.rel[rv["a"]["l"]]
             if rv["r"] == "bin" and rv["op"].endswith("WithOverflow"):
+                pair_up = None
                 # checked arithmetic pair (value, overflowed)
                 tt = self.v.local_ty(l)
                 etn = tt["ts"][0]["n"] if (tt.get("k") == "tuple" and tt["ts"] and tt["ts"][0].get("k") == "prim") else None
@@ -862,8 +872,9 @@ class Analysis:
                         ex = (a[0] - b[1], a[1] - b[0])
                         ka, kb = self.operand_key(st, rv["a"]), self.operand_key(st, rv["b"])
                         if ka is not None and kb is not None and not is_c(kb):
-                            if ka == kb or ka in st.ub.get(kb, ()):
-                                ex = (max(ex[0], 0 if ka == kb else 1), ex[1])   # b <= a / b < a
+                            ge_b, st_b = self.uppers(st, kb)
+                            if ka == kb or ka in ge_b:
+                                ex = (max(ex[0], 1 if ka in st_b else 0), ex[1])   # b <= a / b < a
                             sa = st.sym.get(ka) if not is_c(ka) else None
                             if sa is not None and sa[0] == "sub":
                                 # A = C1 - i ;  i < C - B (no wrap)  =>  A - B >= C1 - C + 1
@@ -871,6 +882,10 @@ class Analysis:
                                     sy = st.sym.get(e)
                                     if sy is not None and sy[0] == "sub" and sy[2] == kb and sa[1] - sy[1] + 1 >= 0:
                                         ex = (max(ex[0], sa[1] - sy[1] + 1), ex[1])
+                        if ka is not None and not is_c(ka) and b[0] >= 0 and a[0] >= b[1]:
+                            ge_a, st_a = self.uppers(st, ka)
+                            ge_a = frozenset(k_ for k_ in ge_a | {ka} if key_root(k_) != l)
+                            pair_up = (ge_a, ge_a if b[0] >= 1 else frozenset(k_ for k_ in st_a if key_root(k_) != l))
                     elif op == "Mul":
                         c = [a[0] * b[0], a[0] * b[1], a[1] * b[0], a[1] * b[1]]
                         ex = (min(c), max(c))
@@ -892,6 +907,12 @@ class Analysis:
                     st.iv[("pl", l, p_)] = v_
                 for p_, v_ in new_sym.items():
                     st.sym[("pl", l, p_)] = v_
+                if pair_up is not None and l not in self.escaped and (("f", 1),) in new_paths and new_paths[(("f", 1),)] == (0, 0):
+                    k0 = ("pl", l, (("f", 0),))
+                    if pair_up[0]:
+                        st.le[k0] = frozenset(pair_up[0])
+                    if pair_up[1]:
+                        st.ub[k0] = frozenset(pair_up[1])
                 return
             if rv["r"] == "agg" and rv.get("kind") in ("tuple", "adt"):
                 pre = (("dc", rv["vidx"]),) if (rv.get("kind") == "adt" and self._is_enum(rv["def"])) else ()
@@ -909,7 +930,7 @@ class Analysis:
                             if liv_ is not None:
                                 new_paths[pre + (("f", i), ("len",))] = liv_   # length of the slice the field points to
                     ok_ = self.operand_key(st, o) if o.get("o") in ("copy", "move") else None
-                    if ok_ is not None and not is_c(ok_) and (isinstance(ok_, int) or ok_[0] == "len") and key_root(ok_) != l \
+                    if ok_ is not None and not is_c(ok_) and (isinstance(ok_, int) or ok_[0] in ("len", "pl")) and key_root(ok_) != l \
                             and key_root(ok_) not in self.escaped and (pre + (("f", i),)) not in new_sym \
                             and rv.get("def", "").startswith("core::ops::range::Range"):
                         new_sym[pre + (("f", i),)] = ("same", 0, ok_)   # a range bound equal to that variable / slice length
@@ -932,6 +953,8 @@ class Analysis:
                                 and key_root(v[2]) != l:
                             new_sym[k[2][n:]] = v
             self.kill_local(st, l)
+            if moved_rel is not None:
+                st.rel[l] = moved_rel
             for p_, v in new_paths.items():
                 if p_:
                     st.iv[("pl", l, p_)] = v
@@ -956,6 +979,26 @@ class Analysis:
                     fact = st.bf[a["l"]]
         iv, alias = self.eval_rvalue(st, rv, rng, tn)
         symv = None
+        rel_up = None    # (ge keys, strict keys) inherited by the result
+        if rv["r"] == "bin" and rv["op"] in ("Sub", "SubUnchecked") and rng is not None and rng[0] == 0:
+            ka, kb = self.operand_key(st, rv["a"]), self.operand_key(st, rv["b"])
+            a_, _ = self.eval_operand(st, rv["a"])
+            b_, _ = self.eval_operand(st, rv["b"])
+            if ka is not None and kb is not None and not is_c(ka) and not is_c(kb) and a_ is not None and b_ is not None:
+                ge_b, _s = self.uppers(st, kb)
+                if ka == kb or ka in ge_b:
+                    iv = (max(0, a_[0] - b_[1]), a_[1] - b_[0])      # b <= a: no wrap-around
+            if ka is not None and not is_c(ka) and b_ is not None and a_ is not None and b_[0] >= 0 and a_[0] >= b_[1]:
+                # result = a - c with c >= 0 and no wrap: every upper bound of a bounds the result (strictly if c >= 1);
+                # also covers the self-decrement `x = x - 1` (bounds that mention x itself are dropped)
+                ge_a, st_a = self.uppers(st, ka)
+                ge_a = frozenset(k_ for k_ in (ge_a | {ka}) if key_root(k_) != l and k_ != l)
+                rel_up = (ge_a, ge_a if b_[0] >= 1 else frozenset(k_ for k_ in st_a if key_root(k_) != l))
+        elif rv["r"] == "use" and rng is not None:
+            sk = self.operand_key(st, rv["a"]) if rv["a"].get("o") in ("copy", "move") else None
+            if sk is not None and not is_c(sk) and key_root(sk) != l:
+                ge_a, st_a = self.uppers(st, sk)
+                rel_up = (frozenset(k_ for k_ in ge_a if key_root(k_) != l), frozenset(k_ for k_ in st_a if key_root(k_) != l))
         if rv["r"] == "bin" and rv["op"] in ("Sub", "Add") and rng is not None:
             ka, kb = self.operand_key(st, rv["a"]), self.operand_key(st, rv["b"])
             if rv["op"] == "Sub" and ka is not None and kb is not None and is_c(ka) and not is_c(kb):
@@ -993,6 +1036,14 @@ class Analysis:
                 and key_root(alias) != l:
             symv = st.sym[alias]   # copy of a value with a known `C - k` form (e.g. field .0 of a checked pair)
         self.kill_local(st, l)
+        if rel_up is not None and l not in self.escaped:
+            ge_, st_ = rel_up
+            ge_ = frozenset(k_ for k_ in ge_ if k_ != l and key_root(k_) not in self.escaped)
+            st_ = frozenset(k_ for k_ in st_ if k_ != l and key_root(k_) not in self.escaped)
+            if ge_:
+                st.le[l] = ge_
+            if st_:
+                st.ub[l] = st_
         if castrel is not None:
             st.rel[l] = castrel
         if symv is not None:
@@ -1035,6 +1086,8 @@ class Analysis:
         iv, alias, fact, paths, syms, ubs = None, None, None, {}, {}, {}
         ref_len, restore = None, None
         min_le = []
+        newrel = None
+        lows_from = None   # key of a range's start field: every yielded value is >= the variable it was built from
         a0 = args[0] if args else None
         a0_local = a0["l"] if (a0 is not None and a0.get("o") in ("copy", "move") and not a0["p"]) else None
         if name in self.LEN_CALLS and a0_local is not None:
@@ -1083,6 +1136,8 @@ class Analysis:
         elif name is not None and _FROM_INT.fullmatch(name) and args:
             iv, _ = self.eval_operand(st, args[0])   # lossless integer widening
         elif name in self.IDENTITY_CALLS and a0_local is not None and a0_local not in self.escaped:
+            if st.rel.get(a0_local, (None,))[0] in ("iterof", "enumof"):
+                newrel = st.rel[a0_local]
             for k, v in st.iv.items():
                 if isinstance(k, tuple) and k[0] == "pl" and k[1] == a0_local:
                     paths[k[2]] = v
@@ -1094,6 +1149,7 @@ class Analysis:
             if r is not None and r[0] == "own" and r[1] not in self.escaped:
                 ks, ke = ("pl", r[1], (("f", 0),)), ("pl", r[1], (("f", 1),))
                 start, end = st.iv.get(ks), st.iv.get(ke)
+                lows_from = ks
                 if start is not None and end is not None:
                     if end[1] - 1 >= start[0]:
                         paths[(("dc", 1), ("f", 0))] = (start[0], end[1] - 1)
@@ -1104,6 +1160,68 @@ class Analysis:
                     st.iv[ks] = (start[0], max(start[1], end[1]))
                 else:
                     st.iv.pop(ks, None)
+        elif name in ("core::slice::<impl [T]>::get", "core::slice::<impl [T]>::get_mut") and len(args) == 2:
+            # Some(sub-slice) of exactly the requested length, or None: never panics
+            ra = self.range_operand(args[1])
+            if ra is not None:
+                kind_, s_op, e_op = ra
+                s_iv = self.eval_operand(st, s_op)[0] if s_op is not None else (0, 0)
+                e_iv = self.eval_operand(st, e_op)[0] if e_op is not None else None
+                if kind_ == "to" and e_iv is not None:
+                    paths[(("dc", 1), ("f", 0), ("len",))] = e_iv
+                elif kind_ == "range" and e_iv is not None and s_iv is not None:
+                    paths[(("dc", 1), ("f", 0), ("len",))] = (max(0, e_iv[0] - s_iv[1]), max(0, e_iv[1] - s_iv[0]))
+        elif name in ("<core::option::Option<T> as core::ops::try_trait::Try>::branch",
+                      "<core::result::Result<T, E> as core::ops::try_trait::Try>::branch") and a0_local is not None \
+                and a0_local not in self.escaped:
+            # Some(v) / Ok(v) -> ControlFlow::Continue(v): carry what is known about v and about the variant
+            src_variant = 1 if "Option" in name else 0
+            dk = st.iv.get(("pl", a0_local, (("discr",),)))
+            if dk is not None and dk[0] == dk[1]:
+                cont = (dk[0] == src_variant)
+                paths[(("discr",),)] = (0, 0) if cont else (1, 1)
+            for k, v in st.iv.items():
+                if isinstance(k, tuple) and k[0] == "pl" and k[1] == a0_local and k[2][:2] == (("dc", src_variant), ("f", 0)):
+                    paths[(("dc", 0), ("f", 0)) + k[2][2:]] = v
+            for k, v in st.sym.items():
+                if isinstance(k, tuple) and k[0] == "pl" and k[1] == a0_local and k[2][:2] == (("dc", src_variant), ("f", 0)) \
+                        and key_root(v[2]) != d:
+                    syms[(("dc", 0), ("f", 0)) + k[2][2:]] = v
+        elif name == "core::result::Result::<T, E>::ok" and a0_local is not None and a0_local not in self.escaped:
+            # Ok(v) -> Some(v), Err(_) -> None
+            dk = st.iv.get(("pl", a0_local, (("discr",),)))
+            if dk is not None and dk[0] == dk[1]:
+                paths[(("discr",),)] = (1, 1) if dk[0] == 0 else (0, 0)
+            for k, v in st.iv.items():
+                if isinstance(k, tuple) and k[0] == "pl" and k[1] == a0_local and k[2][:2] == (("dc", 0), ("f", 0)):
+                    paths[(("dc", 1), ("f", 0)) + k[2][2:]] = v
+        elif name == "core::slice::<impl [T]>::iter" and a0_local is not None:
+            lk = self.len_key(a0_local, st)
+            if lk is not None:
+                newrel = ("iterof", lk)
+        elif name == "core::iter::traits::iterator::Iterator::enumerate" and a0_local is not None \
+                and st.rel.get(a0_local, (None,))[0] == "iterof":
+            newrel = ("enumof", st.rel[a0_local][1])
+        elif name in self.IDENTITY_CALLS and a0_local is not None and st.rel.get(a0_local, (None,))[0] in ("iterof", "enumof"):
+            newrel = st.rel[a0_local]
+        elif name == self.ENUM_NEXT and a0_local is not None:
+            r = self.root_of(a0_local)
+            rl = st.rel.get(r[1]) if r is not None and r[0] == "own" and r[1] not in self.escaped else None
+            if rl is not None and rl[0] == "enumof":
+                lk = rl[1]
+                if lk[0] == "const":
+                    if lk[1] > 0:
+                        paths[(("dc", 1), ("f", 0), ("f", 0))] = (0, lk[1] - 1)
+                    else:
+                        paths[(("discr",),)] = (0, 0)
+                else:
+                    liv = self.get(st, lk)
+                    paths[(("dc", 1), ("f", 0), ("f", 0))] = (0, max(0, (liv[1] if liv else TOP_LEN[1]) - 1))
+                    ups = {lk}
+                    sy_ = st.sym.get(lk)
+                    if sy_ is not None and sy_[0] == "same":
+                        ups.add(sy_[2])   # the slice is exactly that long
+                    ubs[(("dc", 1), ("f", 0), ("f", 0))] = frozenset(ups)
         elif name == "core::iter::traits::iterator::Iterator::rev" and a0_local is not None and a0_local not in self.escaped \
                 and self.v.local_ty(d).get("n") == "core::iter::adapters::rev::Rev":
             # Rev { iter: range }
@@ -1122,6 +1240,7 @@ class Analysis:
                 start, end = st.iv.get(ks), st.iv.get(ke)
                 # next_back: yields end - 1 >= start; `end` only ever decreases, so every bound of the initial end
                 # stays a (strict) bound of every yielded value
+                lows_from = ks
                 ups = set(st.le.get(ke, ()))
                 sy_ = st.sym.get(ke)
                 if sy_ is not None and sy_[0] == "same":
@@ -1200,6 +1319,8 @@ class Analysis:
         self.kill_local(st, d)
         if inrange is not None and d not in self.escaped:
             st.rel[d] = inrange
+        if newrel is not None and d not in self.escaped:
+            st.rel[d] = newrel
         if obs is not None and d not in self.escaped:
             st.rel[d] = obs
         if obs_range and self.v.cfg is not None and rng is not None:
@@ -1242,6 +1363,22 @@ class Analysis:
                     st.sym[("pl", d, p_)] = v
             for p_, v in ubs.items():
                 st.ub[("pl", d, p_)] = v
+            if lows_from is not None and (("dc", 1), ("f", 0)) in paths:
+                # the start field is "same" as X while the range is untouched and only grows afterwards (forward
+                # iteration) or stays (reverse iteration): remember X <= start as a non-strict relation of the field
+                sy_ = st.sym.get(lows_from)
+                xs = set()
+                if sy_ is not None and sy_[0] == "same":
+                    xs.add(sy_[2])
+                    if name != self.REV_NEXT:
+                        del st.sym[lows_from]      # forward iteration advances the start field
+                for x_, ups_ in st.le.items():
+                    if lows_from in ups_:
+                        xs.add(x_)
+                vk = ("pl", d, (("dc", 1), ("f", 0)))
+                for x_ in xs:
+                    if key_root(x_) != d:
+                        st.le[x_] = st.le.get(x_, frozenset()) | {lows_from, vk}
 
     def _callee_width_is_own(self, t):
         """The callee is instantiated for this body's own (BITS, LIMBS) (not e.g. Uint<536, 9> inside a generic fn)."""
@@ -1465,6 +1602,27 @@ class Analysis:
                 st.iv[t] = m if m[0] <= m[1] else n
         return True
 
+    def uppers(self, st, key):
+        """(keys known to be >= key, keys known to be > key)"""
+        if key is None or is_c(key):
+            return frozenset(), frozenset()
+        strict = st.ub.get(key, frozenset())
+        ge = set(st.le.get(key, ())) | set(strict)
+        sy = st.sym.get(key)
+        if sy is not None and sy[0] == "same":
+            ge.add(sy[2])
+        for k2, v2 in st.sym.items():
+            if v2[0] == "same" and v2[2] == key:
+                ge.add(k2)            # k2 == key
+        if isinstance(key, int):
+            ak = st.alias.get(key)
+            if ak is not None and ak != key:
+                ge.add(ak)
+                s2, g2 = st.ub.get(ak, frozenset()), st.le.get(ak, frozenset())
+                strict = strict | s2
+                ge |= set(g2) | set(s2)
+        return frozenset(ge), frozenset(strict)
+
     def _range_via_alias(self, st, key):
         """Type range of a field key that has no interval yet, taken from an integer temporary that is a copy of it."""
         if not (isinstance(key, tuple) and key[0] == "pl"):
@@ -1649,14 +1807,13 @@ class Analysis:
             if b.rel.get(k) == v:
                 r.rel[k] = v
         def le_of(s_, k):
-            v = s_.le.get(k, frozenset())
-            sy = s_.sym.get(k)
-            if sy is not None and sy[0] == "same":
-                v = v | {sy[2]}      # equal implies less-or-equal
-            return v
-        for k in set(a.le) | {k for k, v in a.sym.items() if v[0] == "same"}:
+            return self.uppers(s_, k)[0]      # equal (alias / same) and strictly-less imply less-or-equal
+        cand = set(a.le) | set(a.ub) | {k for k, v in a.sym.items() if v[0] == "same"} | \
+            {k for k, v in a.alias.items() if isinstance(k, int) and self.rng[k] is not None}
+        for k in cand:
             w = le_of(a, k) & le_of(b, k)
-            if w and k not in r.sym:
+            w = frozenset(x for x in w if x != k)
+            if w and k not in r.sym and r.alias.get(k) not in w:
                 r.le[k] = w
         return r
 
